@@ -101,3 +101,43 @@ REG.spec("blt", blt_smt, lambda a, b: bytes(a) < bytes(b), "lexicographic order 
 
 def implies_smt(I, a, b):
     return SBool(simp(z3.Implies(I.as_bool_expr(a), I.as_bool_expr(b))))
+
+
+# wenc(labels, j, canon): RFC 1035 3.1 wire encoding of the first j labels: for each label one
+# length octet followed by the label (ASCII-lowered when canon) ----------------------------------
+WENC = z3.Function("wire_enc", ARR_BYTES, S.IntS, S.IntS, S.BoolS, S.SeqI)  # (arr, lo, hi, canon)
+
+
+def wenc_smt(I, labels, j, canon):
+    from . import models as M
+
+    arr, off, n = _seq_parts(I, labels)
+    lo, hi = simp(off), simp(off + to_z3(j))
+    cz = canon.e if isinstance(canon, SBool) else z3.BoolVal(bool(canon))
+    t = WENC(arr, lo, hi, cz)
+    last = z3.Select(arr, hi - 1)
+    lowered = M.lower_of(I, last)
+    body = z3.Concat(WENC(arr, lo, hi - 1, cz), z3.Unit(z3.Length(last)), z3.If(cz, lowered, last))
+    I.path.assume(t == z3.If(hi <= lo, z3.Empty(S.SeqI), body))
+    return SBytes(t, "bytes")
+
+
+def wenc_native(labels, j, canon):
+    out = b""
+    for l in list(labels)[:j]:
+        out += bytes([len(l)]) + (bytes(l).lower() if canon else bytes(l))
+    return out
+
+
+REG.spec("wenc", wenc_smt, wenc_native, "concatenation over k<j of [len(labels[k])] ++ labels[k] (lower-cased when canon)")
+
+
+def be_smt(I, x, n):
+    from .models2 import be_bytes
+
+    if not isinstance(n, int):
+        raise Unsupported("be(): constant width required")
+    return SBytes(be_bytes(to_z3(x), n), "bytes")
+
+
+REG.spec("be", be_smt, lambda x, n: int(x).to_bytes(n, "big"), "big-endian encoding of x in n octets")
